@@ -20,7 +20,7 @@ import sys
 from traits.api import (
     HasTraits, Int, Float, Str, Any, List, Dict, Set, Instance, Property, DelegatesTo,
     PrototypedFrom, Trait, TraitType, TraitError, Range, Enum, Tuple, Either, Event,
-    ReadOnly, Disallow, Module, Callable, Supports, cached_property, CInt, Map,
+    ReadOnly, Disallow, Module, Callable, Supports, cached_property, CInt, Map, Type, This, Complex,
     push_exception_handler, pop_exception_handler, Undefined,
 )
 from traits.ctrait import CTrait
@@ -744,6 +744,21 @@ class RefH(HasTraits):
     tv = Trait(0, lambda o, n, v: v)
     bad_v = Trait(0, lambda o, n, v: (_ for _ in ()).throw(ValueError("no")))
     any_none = Any(comparison_mode=0)
+    # one compound per case of the switch in validate_trait_complex
+    er = Either(Range(0.0, 1.0), Str)
+    et = Either(Tuple(Int, Int), None)
+    ee = Either(Enum('a', 'b'), Float)
+    eic = Either(Instance(RefObj), Callable)
+    ec = Either(CInt, Str)
+    em = Either(None, Map({'a': 1}))
+    tr = Trait(0.5, Range(0.0, 1.0), None)
+    eint = Either(Int, None)
+    efl = Either(Float, None)
+    et2 = Tuple(Either(Range(0.0, 1.0), Str), Int)
+    ety = Either(Type(RefObj), Str)
+    eth = Either(This, Str)
+    ecx = Either(Complex, Str)
+    esl = Either(List(Int), Range(0.0, 1.0))
 
     def _get_prop(self):
         return self.__dict__.get('_prop')
@@ -819,10 +834,21 @@ def _mk_ref_experiments():
                 pass
         return op
     # successful and failing assignments, per trait kind x sentinel type
+    def smallfl(k):
+        return 0.25 + k * 1e-7
+
+    def tupf(k):
+        return (0.25 + k * 1e-7, 10 ** 20 + k)
+
+    def tupi(k):
+        return (10 ** 20 + k, 10 ** 21 + k)
     for name in ("a", "i", "f", "s", "r", "e", "t", "ei", "ci", "m", "li", "la", "d", "se", "inst",
-                 "ev", "call", "dx", "di", "pr", "prop", "vprop", "tv", "bad_v", "any_none", "undeclared"):
+                 "ev", "call", "dx", "di", "pr", "prop", "vprop", "tv", "bad_v", "any_none", "undeclared",
+                 "er", "et", "ee", "eic", "ec", "em", "tr", "eint", "efl", "et2", "ety", "eth", "ecx",
+                 "esl"):
         for sname, sf in (("bigint", bigint), ("float", fl), ("str", st), ("obj", ob), ("tuple", tup),
-                          ("list", lst)):
+                          ("list", lst), ("smallfloat", smallfl), ("tuple-float-int", tupf),
+                          ("tuple-int-int", tupi)):
             ex.append(("set:%s<-%s" % (name, sname), new, setop(name), sf))
 
     def getop(name):
@@ -885,9 +911,12 @@ def _mk_ref_experiments():
             except TraitError:
                 pass
         return op
-    for name in ("i", "f", "t", "ei", "r", "inst", "e", "m", "li", "call"):
+    for name in ("i", "f", "t", "ei", "r", "inst", "e", "m", "li", "call", "er", "et", "ee", "eic", "ec",
+                 "tr", "et2", "esl"):
         ex.append(("validate:" + name, new, validate_op(name), ob))
         ex.append(("validate:%s<-bigint" % name, new, validate_op(name), bigint))
+        ex.append(("validate:%s<-float" % name, new, validate_op(name), fl))
+        ex.append(("validate:%s<-smallfloat" % name, new, validate_op(name), smallfl))
 
     def ctor(h, s):
         try:
